@@ -8,6 +8,7 @@ git -C /repo worktree add -q --detach $wt HEAD || exit 2
 ( cd $wt && git apply "$patch" ) || { echo "patch does not apply"; git -C /repo worktree remove --force $wt; exit 2; }
 cd /verif
 for c in "$@"; do
-  VERIF_REPO_OVERRIDE=$wt ./check "$c" --tier quick 2>&1 | grep -v conda | grep -E "VIOLATION|KNOWN-FINDING|^\[C"
+  VERIF_REPO_OVERRIDE=$wt VERIF_DEV_BUILD=${wt}_build ./check "$c" --tier quick 2>&1 | grep -v conda | grep -E "VIOLATION|KNOWN-FINDING|^\[C"
 done
 git -C /repo worktree remove --force $wt
+mkdir -p /tmp/r3_replays; cp ${wt}_build/replays/* /tmp/r3_replays/ 2>/dev/null; rm -rf ${wt}_build
